@@ -422,14 +422,9 @@ def rule_drop(ctx, M, u):
 def rule_zip(ctx, M, u):
     bi = u.bi
     m = u.member
-    alls = [s for s in bi.sites if s.callee.name == "all"]
-    te = []
-    for s in alls:
-        te += bi.outcome_edges(s, True)
-        for e in bi.phi_tests_fed_by(s):
-            ed = bi.edge(e, True)
-            if ed:
-                te.append(ed)
+    tests_ = [t for t in common.all_ready_tests(M, bi) if t[3] and t[4]]
+    alls = [t[0] for t in tests_]
+    te = [e for t in tests_ for e in t[1]]
     from . import flow as _flow
     takes = _flow.takes_of(bi, scan.self_field("output"))
     resets = [b for b, v, w in scan.state_set_all(bi) if v == "Pending"]
@@ -702,6 +697,26 @@ def destructor_filter_ready(M, m):
                     ds = [s for s in c2.sites if s.key == DROP]
                     if len(ds) == 1 and _comp_index(ds[0].arg(0), ("param", 2)) == 1 - st_pos and always_reached(c2, [ds[0].block]):
                         return True
+    # ---------------------------------------------------------------- form C
+    # `for i in state.ready_indexes() { slots[i].assume_init_drop() }`  (ready_indexes = indexes whose state is Ready: C02.UTIL)
+    for s in di.sites:
+        if s.key != DROP:
+            continue
+        a = s.arg(0)
+        if a is None or a[0] != "index" or self_path(a[1]) is None or _is_state_field(M, m, a[1]):
+            continue
+        r = scan.loop_item_root(a[2])
+        if r is None or not r[2]:
+            continue
+        it = r[2][0]
+        if it[0] == "call" and it[1][1] == "ready_indexes" and it[2] and _is_state_field(M, m, it[2][0]):
+            nxt = di.by_block.get(r[3])
+            lp = body.innermost_loop(s.block)
+            if nxt is not None and lp is not None and always_reached(di, [nxt.block]):
+                se = di.outcome_edges(nxt, "Some")
+                ok, _ = di.must_reach([x for _, x in se], [s.block], [lp[0]] + list(di.return_blocks)) if se else (False, [])
+                if ok:
+                    return True
     # ---------------------------------------------------------------- form B
     for s in di.sites:
         if s.key != DROP:
